@@ -74,14 +74,20 @@ func (q *qpsLimiter) stopTicker() {
 }
 
 func (q *qpsLimiter) updateToken() {
-	var v int32
-	v = atomic.LoadInt32(&q.tokens)
-	if v < 0 {
-		v = q.once
-	} else if v+q.once > q.limit {
-		v = q.limit
-	} else {
-		v = v + q.once
+	for {
+		old := atomic.LoadInt32(&q.tokens)
+		v := old
+		if v < 0 {
+			v = q.once
+		} else if v+q.once > q.limit {
+			v = q.limit
+		} else {
+			v = v + q.once
+		}
+		// take() may have changed the tokens since they were loaded;
+		// storing v then would give back the tokens taken in between.
+		if atomic.CompareAndSwapInt32(&q.tokens, old, v) {
+			return
+		}
 	}
-	atomic.StoreInt32(&q.tokens, v)
 }
